@@ -2,6 +2,7 @@
 package main
 
 import (
+	"strings"
 	stderrors "errors"
 	"fmt"
 	"io/fs"
@@ -46,7 +47,9 @@ type obj struct {
 	B string `json:"b"`
 }
 
-var texts = []string{"", "plain", "with: colon: inside", `{"json":true,"n":[1,2]}`, "esc\x1bape without marker", "\x1bjso almost", "unicode é世界", "rpc error: code = NotFound desc = fake", "50% done", "fmt verbs %s %d %v %!", "100%"}
+var texts = []string{"", "plain", "with: colon: inside", `{"json":true,"n":[1,2]}`, "esc\x1bape without marker", "\x1bjso almost", "unicode é世界", "rpc error: code = NotFound desc = fake", "50% done", "fmt verbs %s %d %v %!", "100%",
+	// long texts: a transport may be tempted to cap the status message; an embedded object must survive all the same
+	strings.Repeat("long text ", 130), strings.Repeat("x", 70000)}
 
 func main() {
 	run := ev.Parse("C19", "exploration")
@@ -253,9 +256,9 @@ func main() {
 			}
 		}
 	}
-	samples.Add("all status codes 0..16 and 99 x 11 message texts through status.Error -> FromGRPCError / Is")
+	samples.Add("all status codes 0..16 and 99 x 13 message texts through status.Error -> FromGRPCError / Is")
 	run.Finish(ev.Coverage{
 		"evaluations": evals, "distinct_nontrivial": nontriv, "samples": samples.List, "exhaustive": true,
-		"rule": "full finite product: 10 classes with a gRPC code x 12 classes x wrap depth 0..4 (each layer a single %w, two %w verbs, or errors.Join), innermost error the class or a real OS error of the class, embedded object a struct / string / slice / map x embedded object position (none / innermost / outermost / every position for depth<=2) x 11 message texts (empty, colons, JSON, ESC without the marker, marker prefix, unicode, a fake rpc-error text); plus all 17 gRPC codes and one out-of-range code x 11 texts. Every case is distinct; non-trivial = every case except the OK code",
+		"rule": "full finite product: 10 classes with a gRPC code x 12 classes x wrap depth 0..4 (each layer a single %w, two %w verbs, or errors.Join), innermost error the class or a real OS error of the class, embedded object a struct / string / slice / map x embedded object position (none / innermost / outermost / every position for depth<=2) x 13 message texts (empty, colons, JSON, ESC without the marker, marker prefix, unicode, a fake rpc-error text, 1300 and 70000 bytes long); plus all 17 gRPC codes and one out-of-range code x 13 texts. Every case is distinct; non-trivial = every case except the OK code",
 	})
 }
